@@ -25,16 +25,17 @@ RULE = ("29 generic radices x {f32,f64} x G-bits (every binade min/max/half/rand
 TECHNIQUE = ("Lean 4 model of the whole generic-radix writer with exactly modelled IEEE arithmetic, tied byte-exactly to radix.rs by differential correspondence; theorems on the model for "
              "every finite f32/f64 and every generic radix (well-formedness, termination inside the scratch buffer, integer exactness, per-step exactness); "
              "exact rational evaluation of each output by the Lean driver for the ulp clause; re-parse correspondence")
-LEVEL_TEXT = ("Proved in Lean on the model of the whole writer, for EVERY finite binary32/binary64 pattern and every generic radix (no bound): (a) radix_wellformed — with default "
-              "max_significant_digits the text is digits below the radix, at most one decimal point, at most one exponent (sign, digits of the exponent radix), no exclusion "
-              "hypothesis for the code as repaired in /repo dbb7ae7 (the digit of an iteration is < radix: 58 kernel-evaluated rounding facts + monotonicity; the back-trace writes "
-              "digit+1 < radix); for the original snapshot the same under the exact hypothesis 'all fraction bytes valid' with the decided witness snapshot_roundup_invalid_digit "
-              "(\"0.203\" in radix 3); decided witness that max_significant_digits can emit NUL bytes; (b) radix_generate_total — fraction loop (delta doubles per step) and both integer "
-              "loops (exponent field drops per step) stay inside the 2200-byte scratch buffer, so fuel = buffer capacity is adequate; (c) radix_integer_exact_full / "
+LEVEL_TEXT = ("Proved in Lean on the model of the whole writer (code as in /repo after dbb7ae7, f386e72, 2de23fc), for EVERY finite binary32/binary64 pattern, every generic "
+              "radix and EVERY option set (no bound): (a) radix_wellformed — the text is digits below the radix, at most one decimal point, at most one exponent (sign, digits of the "
+              "exponent radix), no exclusion hypothesis (the digit of an iteration is < radix: 58 kernel-evaluated rounding facts + monotonicity; the back-trace writes digit+1 < radix; "
+              "truncate_and_round / round_up keep digits valid: truncateAndRound_spec); for the original snapshot back-trace the same under the exact hypothesis 'all fraction bytes "
+              "valid' with the decided witness snapshot_roundup_invalid_digit (\"0.203\" in radix 3); (b) radix_generate_total, radix_write_total — fraction loop (delta doubles per "
+              "step), both integer loops (exponent field drops per step, at most bias+2 bytes) and the layouts never PANIC: the call panics iff the caller's slice is shorter than the "
+              "highest index touched (regressions of the two repaired panics: zero_required_exponent_regression, max_digits_regression); (c) radix_integer_exact_full / "
               "radix_integer_text_full — integers below 2^53 / 2^24: digits are toDigits r n and the written bytes equal the integer-path model, with the former IeeeExact assumption "
-              "proved (ieeeExact_modelOps); (d) radix_split_exact, radix_fraction_step_partial — float = floor + fraction exactly, each iteration is exact except for the one rounding "
-              "of fraction*base. NOT proved: the ulp bound (C07_radix_error_bound : Prop), measured exactly on every output of the stream; behaviour under max_significant_digits "
-              "(recorded findings). New finding proved on the model and replayed: required_exponent_notation + zero panics (finding_zero_required_exponent_panics).")
+              "proved (ieeeExact_modelOps); (d) radix_split_exact, radix_fraction_step_partial, radix_fraction_error_partial — float = floor + fraction exactly, each iteration is exact except for the one rounding "
+              "of fraction*base, and the n digits written before the final round-up satisfy |fraction - 0.d1..dn - fraction_n r^-n| < 2^(5-p)/(r-1) (telescoped). NOT proved: the ulp bound (C07_radix_error_bound : Prop), measured exactly on every output of the stream; the positional 232-character window "
+              "(recorded finding).")
 LEVEL_NOTE = ("Trusted: Lean kernel; rustc; hardware IEEE-754 arithmetic incl. exact fmod; differential harness and generators (the model is hand-written, tied by correspondence). "
               "Proof level for well-formedness, termination and the integer clause on the model; the ulp clause is exploration with an exact judge — labelled partial.")
 
@@ -93,7 +94,28 @@ def streams(tier, rng, fs, profile):
                 else:
                     o = gens.wopts(exp=e, pb=1, nb=-1, trim=rng.choice([0, 1]))
                 ops.append("wf %s %s %x %s -" % (ty, f, bits, o))
-    return [("g-bits-radix", ops)]
+    # regression classes of two repaired defects (/repo f386e72, 2de23fc): values whose digits are all zero under
+    # required_exponent_notation (honoured by `format` builds only), and a large max_significant_digits on tiny values
+    # in positional notation (the leading-zero allowance of truncate_and_round)
+    extra = []
+    REQEXP36 = 0x2424240000000000000000000000400c
+    for ty in ("f64", "f32"):
+        p, eb = gens.FLOAT_TYPES[ty]
+        sign = 1 << (p + eb - 1)
+        # (a non-`format` build rejects a format with syntax flags: documented panic, skipped by post)
+        for bits in ((0, sign, 1, sign | 1, 2, 3, 1 << (p - 2), (1 << (p - 1)) - 1, 1 << (p - 1)) if gens.has_format(fs) else (0,)):
+            for o in (gens.wopts(exp=94), gens.wopts(exp=94, trim=1), gens.wopts(exp=94, mn=5), gens.wopts(exp=94, pb=700, nb=-700)):
+                extra.append("wf %s %x %x %s -" % (ty, REQEXP36, bits, o))
+        tiny = [b for b in gens.float_bits_cases(rng, ty, 40, rich=True) if (b & (sign - 1)) >> (p - 1) < 12]
+        for r in (rads if quick else GENERIC):
+            f = gens.fmt_hex(gens.pack(r))
+            e = gens.exp_char(r)
+            for bits in rng.sample(tiny, min(len(tiny), 6 if quick else 40)):
+                mx = rng.choice([100, 128, 300, 500])
+                mn = rng.choice(["-", str(mx)])
+                nb = rng.choice([-307, -700, -1100]) if ty == "f64" else rng.choice([-40, -100, -307])
+                extra.append("wf %s %s %x %s -" % (ty, f, bits, gens.wopts(exp=e, mx=str(mx), mn=mn, pb=1, nb=nb)))
+    return [("g-bits-radix", ops), ("g-zero-reqexp-maxdigits", extra)]
 
 
 def nontrivial(op, res):
@@ -108,6 +130,8 @@ def post(ctx, bins):
         for i, (op, ir) in enumerate(zip(ops, impl)):
             it = ir.split(" ")
             if it[0] != "ok":
+                if ir == "panic" and drv[i][1] == "panic":
+                    continue      # the specification demands this panic (format with syntax flags on a non-`format` build)
                 viol.append(judges.viol(fs, profile, sname, op, ir, "ok <bytes>", "writer did not succeed"))
                 continue
             ty, fmt, bits, o = judges.wf_fields(op)
